@@ -832,8 +832,109 @@ def _copy(case, out):
 
 
 
+# ---- coordinate carriers: numpy arrays / numpy scalars of narrow integer types ----------------------
+#
+# The statement does not promise that numpy carriers are accepted: a carrier rejected with an exception is counted,
+# not reported.  An ACCEPTED position must designate the cell z*w*h + y*w + x in every position-taking function.
+
+CARRIERS = ("ndarray", "tuple-of-numpy-scalars", "list-of-numpy-scalars", "object-with-numpy-scalars")
+DTYPES = ("int8", "uint8", "int16", "int32", "int64")
+
+
+def _carry(carrier, dtype, x, y, z):
+    a = np.array([x, y, z], dtype=np.dtype(dtype))
+    if carrier == "ndarray":
+        return a
+    if carrier == "tuple-of-numpy-scalars":
+        return (a[0], a[1], a[2])
+    if carrier == "list-of-numpy-scalars":
+        return [a[0], a[1], a[2]]
+    if carrier == "object-with-numpy-scalars":
+        return Coord(a[0], a[1], a[2])
+    raise ValueError(carrier)
+
+
+def _carriers(case, out):
+    w, h, d = case["w"], case["h"], case["d"]
+    per = _per(case)
+    n = w * h * d
+    carrier, dtype = case["carrier"], case["dtype"]
+    info = np.iinfo(np.dtype(dtype))
+    env = env_map(n)
+    g = make_grid(case)
+    tag = "%s:%s" % (carrier, dtype)
+    where = "%dx%dx%d periodic=%s" % (w, h, d, list(per))
+
+    def mk(c):
+        x, y, z = L.coords_fast(w, h, d, c)
+        return _carry(carrier, dtype, x, y, z)
+
+    def call(api, f, *a):
+        out.ops += 1
+        try:
+            return True, f(*a)
+        except Exception:
+            out.count("numpy_carrier_rejected_by_" + api)
+            return False, None
+
+    import warnings
+    with warnings.catch_warnings():
+        warnings.simplefilter("ignore")          # numpy overflow RuntimeWarnings of the code under test
+        for c in range(n):
+            x, y, z = L.coords_fast(w, h, d, c)
+            if max(x, y, z) > info.max:
+                out.count("cells_skipped_coordinate_does_not_fit_dtype")
+                continue
+            shown = "%s(%d,%d,%d)" % (tag, x, y, z)
+            ok, i = call("get_cell_index", g.get_cell_index, mk(c))
+            if ok:
+                out.evals += 1
+                try:
+                    good = int(i) == c
+                except Exception:
+                    good = False
+                if not good:
+                    out.add("%s:carriers:get_cell_index:wrong-index:%s" % (P, tag),
+                            "get_cell_index(%s) = %r, index = z*w*h + y*w + x = %d (%s)" % (shown, i, c, where))
+                ok2, cc = call("get_cell_coordinates", lambda: g.get_cell_coordinates(g.get_cell_index(mk(c))))
+                if ok2:
+                    out.evals += 1
+                    if tuple(cc) != (x, y, z):
+                        out.add("%s:carriers:round-trip:%s" % (P, tag),
+                                "get_cell_coordinates(get_cell_index(%s)) = %r (%s)" % (shown, cc, where))
+            ok, e = call("get_cell_env", g.get_cell_env, mk(c))
+            if ok:
+                out.evals += 1
+                if int(e) != env[c]:
+                    out.add("%s:carriers:get_cell_env:wrong-cell:%s" % (P, tag),
+                            "get_cell_env(%s) = %r, cell_env[%d] = %d (%s)" % (shown, e, c, env[c], where))
+            ref = L.neighbours(w, h, d, per, c)
+            ok, nb = call("get_neighbors", g.get_neighbors, mk(c))
+            if ok:
+                out.evals += 1
+                try:
+                    got = sorted(set(int(j) for j in nb) - {c})
+                except Exception:
+                    got = None
+                if got != ref:
+                    out.add("%s:carriers:get_neighbors:wrong-cell:%s" % (P, tag),
+                            "set(get_neighbors(%s)) - {self} = %r, reference %r (%s)" % (shown, got, ref, where))
+            others = list(ref) + [q for q in ((c + 7) % n, n - 1 - c, (c + w * h + 1) % n) if q != c and q not in ref]
+            for q in others:
+                exp = L.related(w, h, d, per, c, q)
+                for (pa, pb, form) in ((mk(c), mk(q), "both"), (mk(c), q, "first"), (q, mk(c), "second")):
+                    ok, r = call("are_neighbors", g.are_neighbors, pa, pb)
+                    if ok:
+                        out.evals += 1
+                        if bool(r) != exp:
+                            out.add("%s:carriers:are_neighbors:wrong-cell:%s" % (P, tag),
+                                    "are_neighbors with cell %d=%s and cell %d (%s argument(s) carried) = %r, reference %r (%s)"
+                                    % (c, shown, q, form, r, exp, where))
+    return n > int(info.max) or dtype in ("int32", "int64")
+
+
 SUBS = {"geom": _geom, "pykin": _pykin, "engine": _engine, "graph": _graph, "traj": _traj, "pygraph": _pygraph,
-        "history": _history, "copy": _copy}
+        "history": _history, "copy": _copy, "carriers": _carriers}
 
 
 def _run_case(case):
@@ -893,6 +994,15 @@ def _spaces(tier):
                [dict(g, sub="graph", variant=v) for g in grids for v in range(len(VARIANTS))], 16))
     sp.append(("traj: all grids {1..%d}^3 x 8 x 2 variants (plain; other units + chemostats): 3 Euler steps grid vs graph" % N,
                [dict(g, sub="traj", variant=v, chem=v) for g in grids for v in (0, 1)], 8))
+
+    # numpy carriers of narrow integer types on grids with more cells than the type can count
+    cgrids = [(4, 5, 7), (6, 7, 8), (8, 8, 8)]
+    cpers = [(0, 0, 0), (1, 0, 1)] if tier != "thorough" else [tuple(b) for b in itertools.product((0, 1), repeat=3)]
+    cc = [{"w": w, "h": h, "d": d, "per": [int(b) for b in per], "sub": "carriers", "carrier": ca, "dtype": dt}
+          for (w, h, d) in cgrids for per in cpers for ca in CARRIERS for dt in DTYPES]
+    sp.insert(0, ("geom-carriers: grids 4x5x7, 6x7x8, 8x8x8 x %d boundary settings x 4 numpy coordinate carriers x 5 integer "
+                  "dtypes, every cell: an accepted position designates the cell z*w*h + y*w + x in get_cell_index / "
+                  "get_cell_coordinates / get_cell_env / get_neighbors / are_neighbors" % len(cpers), cc, 1))
 
     # histories on one object (E2)
     def shp(t):
@@ -976,7 +1086,8 @@ def run(ctx):
     ctx.rule("every case of each listed sub-space is enumerated in fixed order on the real code; cases are distinct "
              "tuples (grid[, source cell | variant]); non-trivial = geom/traj/pygraph: grid of >= 2 cells; "
              "pykin/engine: the source cell has >= 1 reference neighbour; graph: >= 1 face between distinct cells; "
-             "history: the final setting differs from the initial one; copy: the new setting differs from the initial one")
+             "history: the final setting differs from the initial one; copy: the new setting differs from the initial one; "
+             "carriers: the grid has more cells than the dtype can count (or the dtype is int32/int64)")
     ctx.assume("reference layout mc/ref/layout.py (self-tested in this run against an independent definition of the "
                "relation and closed-form face counts); exact SI scales of mc/ref/si.py; self pairs (c,c) of a graph "
                "and duplicates / self entries in get_neighbors lists are not constrained (the statement speaks of the "
